@@ -602,5 +602,5 @@ Proof.
   repeat (proj; split_innermost);
     proj; intros Hnot; try reflexivity;
     eqb_subst; try (cbn; reflexivity); try (cbn; congruence);
-    norm_some; try (exfalso; apply Hnot; cbn; tauto). Show.
+    norm_some; try discriminate; try congruence; try (exfalso; apply Hnot; cbn; tauto). Show.
 Qed.
